@@ -20,7 +20,18 @@ def gen_case(rng):
                 s['coefficients'] = [0.0] + s['coefficients'][:2]     # no r^2 term: vertex curvature = 1/R
             elif s['coefficients'][0] != 0:
                 r2 = True
-    return {'desc': d, 'r2_term': r2}
+    case = {'desc': d, 'r2_term': r2}
+    if rng.random() < 0.25:
+        # per-field vignetting factors: the pupil of the axial bundle is compressed by (1 - v)^2 in trace_generic;
+        # v at the axial field point is taken from the descriptor (np.interp clamps to the field of smallest y)
+        for f in d['fields']:
+            f += [0.0, lensgen.dyadic(rng, 0, 0.5, 5), lensgen.dyadic(rng, 0, 0.5, 5)]
+        if min(f[0] for f in d['fields']) >= 0:
+            case['vy0'] = min(d['fields'], key=lambda f: f[0])[3]
+        else:
+            for f in d['fields']:
+                del f[1:]
+    return case
 
 
 def paraxial_rays(optic):
@@ -34,11 +45,11 @@ def eps_sequence(quick):
     return [2.0 ** -k for k in (range(3, 11) if quick else range(2, 13))]
 
 
-def real_scaled(optic, kind, eps, w):
+def real_scaled(optic, kind, eps, w, vy0=0.0):
     """real ray of type `kind` ('marginal'|'chief') at scale eps -> (y_j, tan_j) per surface, and the scale g"""
     if kind == 'marginal':
         optic.trace_generic(0.0, 0.0, 0.0, float(eps), w)
-        g = eps
+        g = eps * (1.0 - vy0) ** 2        # trace_generic compresses the pupil twice by (1 - v) (see C03)
     else:
         optic.trace_generic(0.0, float(eps), 0.0, 0.0, w)
         fmax = float(optic.fields.max_y_field)
@@ -99,7 +110,7 @@ def predicate(ctx, optic, case, par, w):
         ok = True
         for e in es_k:
             try:
-                y, t, g = real_scaled(optic, kind, e, w)
+                y, t, g = real_scaled(optic, kind, e, w, vy0=float(case.get('vy0', 0.0)))
             except RuntimeError:
                 # entrance pupil behind the starting plane: RayGenerator aims the ray backwards (observation
                 # F25 in DESIGN.md; not a clause of C05) - outside the domain
